@@ -27,7 +27,8 @@ META = dict(
                "saturation probe checks on the implementation. That every outcome ends the callback task in the same way is "
                "established by trace acceptance (sampled), the per-message pipeline itself is Pipeline.v (C02/C07/C10). Trusted: "
                "Coq kernel + vm_compute, shims and raw-log grouping (harness/shims.py), virtual-time loop.",
-    rule="case = receiver scenario with a fault history (raise / BaseException / timeout label with instant or slow cancellation clean-up / no-result / malformed / unknown / "
+    rule="case = receiver scenario (acks / hooks as sync callables, coroutines, or plain callables returning a non-coroutine awaitable "
+         "- Future, Task, object with __await__, generator-based coroutine - that completes later) with a fault history (raise / BaseException / timeout label with instant or slow cancellation clean-up / no-result / malformed / unknown / "
          "failing backend / raising pre- or post-hook / pre-, post-, post_save-, on_error-hook or set_result ending with asyncio.CancelledError "
          "(raised, or a cancelled future awaited: the callback task ends CANCELLED) or another BaseException) followed by A+1 long probe tasks; non-trivial iff finite A, >= A messages "
          "ending abnormally and a probe present; distinct by canonical scenario",
@@ -53,8 +54,10 @@ def oracle(sc, obs):
     A = sc["A"] if R.limited(sc) else None
     msgs = sc["msgs"]
     # (1) at no instant more than A messages in processing (first .. last observable event of a message: callback
-    #     entry .. callback exit, which brackets hooks, body, save, ack)
+    #     entry .. callback exit, which brackets hooks, body, save, ack - and, should it come later, the COMPLETION of an
+    #     acknowledgement / of a hook's awaitable that was begun: `ack` .. `ack.end`, `hook.aw` .. `hook.aw.end`)
     proc, peak, body, bpeak = set(), 0, set(), 0
+    cbopen, inflight = set(), {}
     order = []
     serial_ok = True
     for e in f.raw:
@@ -62,10 +65,20 @@ def oracle(sc, obs):
         if tag == "cb.start":
             if proc and A == 1:
                 serial_ok = False
+            cbopen.add(a)
             proc.add(a)
             order.append(a)
         elif tag == "cb.end":
-            proc.discard(a)
+            cbopen.discard(a)
+            if not inflight.get(a):
+                proc.discard(a)
+        elif tag in ("ack", "hook.aw"):
+            inflight[a] = inflight.get(a, 0) + 1
+            proc.add(a)
+        elif tag in ("ack.end", "hook.aw.end"):
+            inflight[a] = inflight.get(a, 0) - 1
+            if not inflight[a] and a not in cbopen:
+                proc.discard(a)
         elif tag == "body.in":
             if body and A == 1:
                 serial_ok = False        # limit 1: the previous task body has not really ended yet
@@ -73,7 +86,7 @@ def oracle(sc, obs):
         elif tag == "body.out":
             body.discard(a)              # logged in the outermost finally of the task function: the body REALLY ended
         if tag in ("hook.pre", "hook.post", "hook.post_save", "hook.on_error", "save", "ack", "body.in", "body.cleanup", "body.out"):
-            if a not in proc and not any(o["sig"].get("kind") == "bracket" for o in out):
+            if a not in cbopen and not any(o["sig"].get("kind") == "bracket" for o in out):
                 out.append(dict(what="observable processing event outside the message's callback bracket",
                                 observed=[t, tag, a], expected="between cb.start and cb.end", sig=dict(kind="bracket")))
         peak = max(peak, len(proc))
@@ -145,6 +158,7 @@ def explore(ctx, rep, scs, label):
         for f in oracle(sc, o):
             rep.fail(f["what"], sc, observed=f["observed"], expected=f["expected"], sig=f["sig"])
         rep.count("A=%s" % sc["A"])
+        R.count_inputs(rep, sc)
         rep.count("probe" if "probe_at" in sc else "no-probe")
         # how callback tasks really ended (from the done-callback of the real task object)
         canc = sum(1 for e in o["raw"] if e[1] == "cb.done" and e[3] == "cancelled")
